@@ -17,6 +17,8 @@ func plans(quick bool) []netsim.CrashPlan {
 	ps := []netsim.CrashPlan{
 		{Name: "flush-4v-victim0", N: 4, Victim: 0, Flush: true, Heights: 3},
 		{Name: "cache-4v-victim1-txs", N: 4, Victim: 1, Flush: false, Heights: 3, WithTxs: true},
+		{Name: "flush-4v-victim2-late-votesfirst", N: 4, Victim: 2, Flush: true, Heights: 3, Late: true, VotesFirst: true},
+		{Name: "flush-1v-late-txs", N: 1, Victim: 0, Flush: true, Heights: 3, Late: true, WithTxs: true},
 	}
 	if quick {
 		return ps
@@ -25,6 +27,8 @@ func plans(quick bool) []netsim.CrashPlan {
 		ps = append(ps, netsim.CrashPlan{Name: fmt.Sprintf("flush-4v-victim%d-txs", v), N: 4, Victim: v, Flush: true, Heights: 5, WithTxs: true})
 		ps = append(ps, netsim.CrashPlan{Name: fmt.Sprintf("cache-4v-victim%d", v), N: 4, Victim: v, Flush: false, Heights: 5})
 		ps = append(ps, netsim.CrashPlan{Name: fmt.Sprintf("flush-4v-victim%d-torn", v), N: 4, Victim: v, Flush: true, Heights: 4, Torn: true})
+		ps = append(ps, netsim.CrashPlan{Name: fmt.Sprintf("flush-4v-victim%d-late-txs", v), N: 4, Victim: v, Flush: true, Heights: 4, Late: true, WithTxs: true})
+		ps = append(ps, netsim.CrashPlan{Name: fmt.Sprintf("flush-4v-victim%d-late-votesfirst", v), N: 4, Victim: v, Flush: true, Heights: 4, Late: true, VotesFirst: true})
 	}
 	ps = append(ps, netsim.CrashPlan{Name: "flush-1v", N: 1, Victim: 0, Flush: true, Heights: 4, WithTxs: true})
 	ps = append(ps, netsim.CrashPlan{Name: "cache-1v", N: 1, Victim: 0, Flush: false, Heights: 4})
